@@ -265,7 +265,13 @@ func (b *Bundle) SourceForLocalPath(p string) (sourceaddrs.FinalSource, error) {
 		if found {
 			// We've found multiple possible source addresses, so we
 			// need to decide which one to keep.
-			if len(candidateAddr.String()) > len(pkgAddr.String()) {
+			candidateStr, currentStr := candidateAddr.String(), pkgAddr.String()
+			if len(candidateStr) > len(currentStr) {
+				continue
+			}
+			// Addresses of equal length would otherwise be chosen between
+			// by map iteration order: take the lexically smaller one.
+			if len(candidateStr) == len(currentStr) && candidateStr > currentStr {
 				continue
 			}
 		}
